@@ -4,6 +4,7 @@ import (
 	"bytes"
 	"fmt"
 	"io"
+	"strings"
 )
 
 func init() {
@@ -243,6 +244,14 @@ func checkC13(c *Case, st *Stats) *Violation {
 	}
 	nk := originOf(c.Note)
 	if !bytes.Equal(a.Out, b.Out) {
+		d := len(a.Out) - len(b.Out)
+		if d < 0 {
+			d = -d
+		}
+		if strings.Contains(c.Note, "cut:") && d <= 2 && errKind(a.Err) == errKind(b.Err) && errKind(a.Err) == "UnexpectedEOF" && (isPrefix(a.Out, b.Out) || isPrefix(b.Out, a.Out)) {
+			// the tail of a TRUNCATED stream depends on the table mode / inflater in use (F-C04-1)
+			return viol(c, "truncated-tail<=2", "%s Reader after Reset: truncated next input, %d vs %d bytes before io.ErrUnexpectedEOF (both correct prefixes)", c.Pkg, len(a.Out), len(b.Out))
+		}
 		return viol(c, fmt.Sprintf("reset-output/%s/%s", c.Pkg, nk), "%s Reader after history %q and Reset: delivers %d bytes, a fresh Reader on the same input delivers %d (first diff at %d); next input %s; errors %v / %v", c.Pkg, c.Kind, len(a.Out), len(b.Out), firstDiff(a.Out, b.Out), c.Note, a.Err, b.Err)
 	}
 	if errKind(a.Err) != errKind(b.Err) {
